@@ -8,6 +8,7 @@ CHECK = dict(
         "kill points are sampled (wall-clock delay); a SIGKILL does not lose page cache, so missing fsync / power-loss atomicity is not decided",
         "the simulated backend sends consistent snapshots (keys unique among live devices, both sides of a move in the same response)",
         "Go scheduler: with GOMAXPROCS(1) a spawned goroutine does not run before the spawning goroutine yields or blocks (async preemption after ~10 ms only reorders, it cannot invalidate the oracle)",
+        "cmd unit: builder.profilesEnabled and bindSet are set as initServerGroups leaves them; the builder gets a real signal handler with a notifier stand-in, whose registered refresh workers are read back (vpeek) and shut down; deadlines seen by the loopback gRPC stand-in are compared with interval arithmetic over two clock readings and 100 ms slack for gRPC's timeout encoding",
     ],
     units=[
         dict(name="profiledb", dir="internal/profiledb", src="C14/profiledb", runs=[
@@ -21,6 +22,16 @@ CHECK = dict(
             dict(name="kill", run="^TestVerifC14rtKill$", quick=80, thorough=2400, shards_thorough=4),
             dict(name="rt-concurrent", run="^TestVerifC14rtConcurrent$", quick=60, thorough=2000, shards_thorough=4),
             dict(name="rt-concurrent-race", run="^TestVerifC14rtConcurrent$", quick=30, thorough=600, shards_thorough=2, race=True),
+        ]),
+        dict(name="backendpb", dir="internal/backendpb", src="C14/backendpb", runs=[
+            dict(name="conversion", run="^TestVerifC14bpConversion$", quick=2500, thorough=600000, shards_thorough=8),
+            dict(name="storage", run="^TestVerifC14bpStorage$", quick=600, thorough=80000, shards_thorough=8),
+            dict(name="db", run="^TestVerifC14bpDB$", quick=300, thorough=60000, shards_thorough=8),
+            dict(name="db-race", run="^TestVerifC14bpDB$", quick=40, thorough=2000, shards_thorough=2, race=True),
+            dict(name="fixed", run="^TestVerifC14bp(Pools|BigProfile)$", quick=0, thorough=0),
+        ]),
+        dict(name="cmd", dir="internal/cmd", src="C14/cmd", runs=[
+            dict(name="profiledb-config", run="^TestVerifC14CmdBackend$", quick=300, thorough=12000, shards_quick=2, shards_thorough=6),
         ]),
     ],
 )
